@@ -1174,6 +1174,10 @@ class Deferred(Awaitable[_SelfResultT]):
     __repr__ = __str__
 
     def __iter__(self) -> Generator[Deferred[_SelfResultT], None, _SelfResultT]:
+        if self._runningCallbacks:
+            # Awaited from inside one of our own callbacks: the result is
+            # whatever comes out of that callback, not what went into it.
+            yield self
         while True:
             if self.paused:
                 # If we're paused, we have no result to give
